@@ -10,11 +10,19 @@ use serde_json::{json, Value};
 use crate::{s, OpResult};
 
 pub fn power_helpers(cmd: &Value) -> OpResult {
-    let content: RoomPowerLevelsEventContent = match serde_json::from_str(s(cmd, "content")?) {
-        Ok(c) => c,
-        Err(e) => return Ok(json!({"content_err": e.to_string()})),
+    // "redacted": the content is that of a redacted m.room.power_levels event
+    let pl = if crate::b(cmd, "redacted") {
+        match serde_json::from_str::<ruma_events::room::power_levels::RedactedRoomPowerLevelsEventContent>(s(cmd, "content")?) {
+            Ok(c) => RoomPowerLevels::from(c),
+            Err(e) => return Ok(json!({"content_err": e.to_string()})),
+        }
+    } else {
+        let content: RoomPowerLevelsEventContent = match serde_json::from_str(s(cmd, "content")?) {
+            Ok(c) => c,
+            Err(e) => return Ok(json!({"content_err": e.to_string()})),
+        };
+        RoomPowerLevels::from(content)
     };
-    let pl = RoomPowerLevels::from(content);
     let actor = <&UserId>::try_from(s(cmd, "actor")?).map_err(|e| format!("harness: actor: {e}"))?;
     let target = <&UserId>::try_from(s(cmd, "target")?).map_err(|e| format!("harness: target: {e}"))?;
     let mut msg = serde_json::Map::new();
